@@ -175,6 +175,7 @@ func check(c Case) error {
 	}
 	p := filepath.Join(vk.WorkDir(), "x.gff")
 	defer os.Remove(p)
+	vk.StaleFile(p, 2*len(text)+500)
 	gff.Write(x, p)
 	if err := compare("Read(Write(x))", c, gff.Read(p)); err != nil {
 		return err
